@@ -32,12 +32,13 @@ def read_phs(root, proxies=None) -> list[dict]:
             xf = el.find("{%s}xfrm" % P)
         off = xf.find("{%s}off" % A) if xf is not None else None
         ext = xf.find("{%s}ext" % A) if xf is not None else None
-        own = off is not None and ext is not None
+        po, pe = off is not None, ext is not None
+        own = po and pe
         cnv = next(el.iter("{%s}cNvPr" % P))
         rec = {"car": etree.QName(el).localname, "type": ph.get("type", "obj"), "idx": int(ph.get("idx", "0")), "orient": ph.get("orient", "horz"), "sz": ph.get("sz", "full"),
-               "own": own, "x": int(off.get("x")) if own else 0, "y": int(off.get("y")) if own else 0,
-               "cx": int(ext.get("cx")) if own else 0, "cy": int(ext.get("cy")) if own else 0, "name": cnv.get("name", ""),
-               "rd": False, "rx": 0, "ry": 0, "rcx": 0, "rcy": 0}
+               "own": own, "po": po, "pe": pe, "x": int(off.get("x")) if po else 0, "y": int(off.get("y")) if po else 0,
+               "cx": int(ext.get("cx")) if pe else 0, "cy": int(ext.get("cy")) if pe else 0, "name": cnv.get("name", ""),
+               "rd": False, "rdo": False, "rde": False, "rx": 0, "ry": 0, "rcx": 0, "rcy": 0}
         if proxies is not None:
             pr = next((s for s in proxies if s._element is el), None)
             if pr is not None:
@@ -46,10 +47,13 @@ def read_phs(root, proxies=None) -> list[dict]:
                 except Exception as e:      # a reader that raises reports nothing: recorded, judged by PhInherit
                     vals = (-2, -2, -2, -2)
                     rec["raised"] = type(e).__name__
-                if all(v is not None for v in vals):
-                    rec.update({"rd": True, "rx": int(vals[0]), "ry": int(vals[1]), "rcx": int(vals[2]), "rcy": int(vals[3])})
-                elif any(v is not None for v in vals):
-                    rec.update({"rd": True, "rx": -1, "ry": -1, "rcx": -1, "rcy": -1})   # partly inherited: judged as a mismatch
+                # pair by pair (position, size); a pair of which only one reader returned a number is judged as a mismatch (-1, -1)
+                for flag, (a, b), (ka, kb) in (("rdo", vals[:2], ("rx", "ry")), ("rde", vals[2:], ("rcx", "rcy"))):
+                    if a is not None and b is not None:
+                        rec.update({flag: True, ka: int(a), kb: int(b)})
+                    elif a is not None or b is not None:
+                        rec.update({flag: True, ka: -1, kb: -1})
+                rec["rd"] = rec["rdo"] and rec["rde"]
         res.append(rec)
     return res
 
@@ -97,6 +101,10 @@ def ph_xml(i: int, p: dict) -> str:
                 'uri="http://schemas.openxmlformats.org/drawingml/2006/table"><a:tbl><a:tblPr/><a:tblGrid/></a:tbl></a:graphicData></a:graphic>'
                 '</p:graphicFrame>' % ((P, A, i + 2, nm, attrs) + geo))
     xfrm = ('<a:xfrm><a:off x="%d" y="%d"/><a:ext cx="%d" cy="%d"/></a:xfrm>' % geo) if p["own"] else ""   # first one sits at (0, 0)
+    if p["own"] and p.get("part", "full") == "off":       # a position without a size / a size without a position
+        xfrm = '<a:xfrm><a:off x="%d" y="%d"/></a:xfrm>' % geo[:2]
+    elif p["own"] and p.get("part", "full") == "ext":
+        xfrm = '<a:xfrm><a:ext cx="%d" cy="%d"/></a:xfrm>' % geo[2:]
     return ('<p:sp xmlns:p="%s" xmlns:a="%s"><p:nvSpPr><p:cNvPr id="%d" name="%s"/><p:cNvSpPr><a:spLocks noGrp="1"/></p:cNvSpPr>'
             '<p:nvPr><p:ph%s/></p:nvPr></p:nvSpPr><p:spPr>%s</p:spPr><p:txBody><a:bodyPr/><a:lstStyle/><a:p><a:endParaRPr lang="en-US"/></a:p></p:txBody></p:sp>'
             % (P, A, i + 2, nm, attrs, xfrm))
